@@ -40,7 +40,7 @@ Lemma set_now_id w : set_now w (now w) = w.
 Proof. destruct w; reflexivity. Qed.
 
 (* how long the dispatch of a message keeps the thread: serving a request, or materialising a reply's value *)
-Definition dur (m : msg) : Z := match m with Traffic d => Z.of_N d | Reply _ _ u => Z.of_N u | Stray => 0 end.
+Definition dur (m : msg) : Z := match m with Traffic d | Stray d => Z.of_N d | Reply _ _ u => Z.of_N u end.
 Lemma dur_nonneg m : 0 <= dur m.
 Proof. destruct m; cbn; lia. Qed.
 
@@ -104,7 +104,7 @@ Proof.
       destruct (ar_call _ e v) as [w1 x]. cbn in *. rewrite A, B, C, D, E, F, G, H, I. repeat split.
     + repeat split.
   - cbn. repeat split.
-  - cbn. rewrite Z.add_0_r. repeat split.
+  - cbn. repeat split.
 Qed.
 
 (* what a dispatch does to the result: only a still-registered reply changes it, and only if the clock AFTER its value
@@ -864,23 +864,25 @@ Proof.
     exists ds0, r, rc, m. pose proof (dur_nonneg m). repeat split; try lia. repeat f_equal. lia.
 Qed.
 
-(* the statement's clause: with whole frames and replies that need no round trip, wait is late only because it was busy
-   serving a request that arrived no later than the expiry *)
+(* the statement's clause: with whole frames and replies that need no round trip, wait is late only because the thread was
+   busy with ANOTHER message that arrived no later than the expiry: serving an unrelated request, or running the callbacks
+   of the reply to another pending request of this connection (callbacks run on the thread that dispatches the reply) *)
+Definition other_work (m : msg) (d : N) : Prop := m = Traffic d \/ m = Stray d.
 Theorem wait_late_only_when_serving w : ready (res w) = false -> finite (ttl (res w)) = true ->
   whole_frames (queue w) -> instant_replies (queue w) ->
   let tm := tmax (ttl (res w)) in
   let w' := fst (ar_wait w) in
   snd (ar_wait w) = OTimeout -> Z.max (now w) tm < now w' ->
-  exists ds' r d, g_disp w' = g_disp w ++ ds' ++ [(r, r, now w', Traffic d)] /\ r <= tm /\ now w' = r + Z.of_N d /\ (0 < d)%N.
+  exists ds' r m d, other_work m d /\ g_disp w' = g_disp w ++ ds' ++ [(r, r, now w', m)] /\ r <= tm /\ now w' = r + Z.of_N d /\ (0 < d)%N.
 Proof.
   intros NR F WF IR tm w' X L. destruct (wait_exact w NR F) as (ds & A & B & _ & _ & _ & K). cbn zeta in *.
   destruct (K X L) as (ds' & r & rc & m & -> & K1 & K2 & K3).
   apply Forall_app in B as (_ & B). apply Forall_inv in B. unfold disp_ok in B. destruct B as (B1 & B2 & B3 & a & c & B4 & B5 & B6).
   unfold whole_frames, instant_replies in *. rewrite Forall_forall in WF, IR. specialize (WF _ B4). specialize (IR _ B4). cbn in WF, IR.
-  assert (rc = r) as Erc by lia. clear B6. subst rc. destruct m as [e v u|d|]; cbn [dur instant] in IR, K3, K2.
+  assert (rc = r) as Erc by lia. clear B6. subst rc. destruct m as [e v u|d|d]; cbn [dur instant] in IR, K3, K2.
   - subst u. lia.
-  - exists ds', r, d. fold w' in A. rewrite A. repeat split; auto; lia.
-  - lia.
+  - exists ds', r, (Traffic d), d. fold w' in A. rewrite A. repeat split; auto; [now left|lia].
+  - exists ds', r, (Stray d), d. fold w' in A. rewrite A. repeat split; auto; [now right|lia].
 Qed.
 
 (* with nothing that can be received up to the expiry the waiting thread is never busy: the error is raised exactly at the expiry *)
@@ -1025,3 +1027,21 @@ Lemma facts_current : isolated_of call_prog_current = false /\ atomic_of call_pr
 Proof. split; reflexivity. Qed.
 Lemma facts_repaired : isolated_of call_prog_repaired = true /\ atomic_of call_prog_repaired add_callback_prog_repaired = true.
 Proof. split; reflexivity. Qed.
+
+(* ------------------------------------------------------------------ materialisation bounded by the configured timeout *)
+Lemma bound_reply_times_out c e v u : 0 <= c -> c <= Z.of_N u -> (0 < u)%N ->
+  bound_reply (Some c) (Reply e v u) = Reply true tmark (Z.to_N c).
+Proof.
+  intros H1 H2 H3. unfold bound_reply, timeout_finite, oz. destruct (Z.geb_spec c 0); [|lia].
+  destruct (Z.leb_spec c (Z.of_N u)); [|lia]. destruct (N.eqb_spec u 0); [lia|reflexivity].
+Qed.
+Lemma bound_reply_in_time cfg e v u : timeout_finite cfg = false \/ Z.of_N u < oz cfg \/ u = 0%N ->
+  bound_reply cfg (Reply e v u) = Reply e v u.
+Proof.
+  intros H. unfold bound_reply. destruct H as [H|[H|H]].
+  - now rewrite H.
+  - destruct (Z.leb_spec (oz cfg) (Z.of_N u)); [lia|]. now rewrite andb_false_r.
+  - subst u. now rewrite andb_false_r.
+Qed.
+Lemma bound_reply_other cfg m : (forall e v u, m <> Reply e v u) -> bound_reply cfg m = m.
+Proof. destruct m; intros H; [now destruct (H e v u)|reflexivity..]. Qed.
